@@ -2,7 +2,7 @@
    proofs/MsgRequestsBatch.v). *)
 From Coq Require Import ZArith List Bool Lia.
 From Coq Require Import ZifyBool ZifyNat.
-From GCNP Require Import base.GoInt base.Bytes base.Codec gen.Constants_gen spec.SpecTables model.Prim model.DataType
+From GCNP Require Import spec.SpecClean base.GoInt base.Bytes base.Codec gen.Constants_gen spec.SpecTables model.Prim model.DataType
   model.MsgTypes model.Frame model.MsgRequests proofs.PrimProofs proofs.CqlBytesLemmas proofs.FrameProofs proofs.MsgRequestsLib
   proofs.MsgRequestsSimple proofs.MsgRequestsQuery proofs.MsgRequestsBatch
   spec.SpecNotation spec.SpecMsg spec.SpecFrame proofs.SpecAgreeLib proofs.SpecAgreeErrors.
@@ -13,12 +13,7 @@ Ltac Zify.zify_post_hook ::= Z.div_mod_to_equations.
 Ltac raw_head Hv := unfold spec_body_raw; rewrite (supported_is_version _ Hv); cbn [negb].
 
 (* ---------- values ---------- *)
-(* Value{Regular, nil contents}: the Go encoder writes null; the specification side gives it no meaning *)
-Definition value_clean (x : option Value) : bool :=
-  match x with
-  | Some val => negb (value_type val =? ValueTypeRegular) || is_some (value_contents val)
-  | None => true
-  end.
+(* value_clean: see spec/SpecClean.v *)
 
 Lemma from_v4_geb v : supported v -> spec_from_v4 v = (4 <=? v).
 Proof. intro H. destruct (supported_cases _ H) as [->|[->|[->|[->|[->| ->]]]]]; reflexivity. Qed.
@@ -146,12 +141,7 @@ Qed.
 (* what the specification needs beyond QueryOptions_okb (the Go encoder's choices for these inputs are documented in
    model/MsgRequests.v: positional values win over named ones; a page size <= 0 is not written and takes PageSizeInBytes
    with it; Value{Regular,nil} is written as null): the specification side has no reading for them *)
-Definition qo_clean (o : QueryOptions) : bool :=
-  negb (is_some (qo_PositionalValues o) && is_some (qo_NamedValues o))
-  && (0 <=? qo_PageSize o)
-  && (negb (qo_PageSizeInBytes o) || (qo_PageSize o >? 0))
-  && forallb value_clean (olist (qo_PositionalValues o))
-  && forallb (fun kv => value_clean (snd kv)) (olist (qo_NamedValues o)).
+(* qo_clean: see spec/SpecClean.v *)
 
 Lemma opt_guard (b s : bool) : (b = true -> s = true) -> negb b || s = true.
 Proof. destruct b; [intro H; rewrite H; reflexivity|reflexivity]. Qed.
@@ -285,7 +275,7 @@ Qed.
 (* ---------- QUERY ---------- *)
 (* beyond Query_okb: options are given (a nil *QueryOptions is encoded by Go as the default options - consistency ANY, no
    flags -; the specification has no default), and they are clean *)
-Definition oqo_clean (oo : option QueryOptions) : bool := match oo with Some o => qo_clean o | None => false end.
+(* oqo_clean: see spec/SpecClean.v *)
 
 Lemma agree_Query v m : supported v -> Query_okb v m = true -> oqo_clean (q_Options m) = true ->
   spec_body_bytes v (M_Query m) = Some (bytes_Query v m).
@@ -303,9 +293,7 @@ Lemma Query_nil_options v q : bytes_Query v {| q_Query := q; q_Options := None |
 Proof. reflexivity. Qed.
 
 (* ---------- EXECUTE ---------- *)
-(* beyond Execute_okb: no result metadata id where the version has none (an empty non-nil slice is accepted and dropped by Go) *)
-Definition execute_clean (v : Z) (m : Execute) : bool :=
-  oqo_clean (ex_Options m) && (spec_v5_or_dse2 v || negb (is_some (ex_ResultMetadataId m))).
+(* execute_clean: see spec/SpecClean.v *)
 
 Lemma agree_Execute v m : supported v -> Execute_okb v m = true -> execute_clean v m = true ->
   spec_body_bytes v (M_Execute m) = Some (bytes_Execute v m).
@@ -334,11 +322,7 @@ Qed.
 (* ---------- BATCH ---------- *)
 (* beyond BatchChild_okb: a child with a query text has no id at all (Go accepts and ignores an empty non-nil id);
    clean values *)
-Definition batch_child_clean (oc : option BatchChild) : bool :=
-  match oc with
-  | Some c => (negb (MsgRequests.nonempty (bc_Query c)) || negb (is_some (bc_Id c))) && forallb value_clean (bc_Values c)
-  | None => true
-  end.
+(* batch_child_clean: see spec/SpecClean.v *)
 
 Lemma batch_child_agree v oc : supported v -> BatchChild_okb v oc = true -> batch_child_clean oc = true ->
   exists ns, spec_batch_child v oc = Some ns /\ forallb notation_ok ns = true /\ ser_all ns = bytes_BatchChild oc.
